@@ -107,7 +107,11 @@ def _instance_key_for(instance: Any) -> int:
     if known is not None and known[0]() is instance:
         return known[1]
     key = next(_INSTANCE_KEY_COUNTER)
-    _INSTANCE_KEYS[id(instance)] = (weakref.ref(instance), key)
+    address = id(instance)
+    _INSTANCE_KEYS[address] = (
+        weakref.ref(instance, lambda _ref: _INSTANCE_KEYS.pop(address, None)),
+        key,
+    )
     return key
 
 # Track @onnx_function hits (optional)
